@@ -40,3 +40,9 @@ CONTRACTS.append(Contract(
               'implies(not assoc_classes and not result_classes and not result_role, result is True)')],
     raises={},
 ))
+
+# NOTE (recorded in DESIGN.md): a membership contract for _get_reference_instnames (nested loops over stored
+# instances x reference properties, completeness invariant with two nested quantifiers over sequences of opaque
+# objects and str.lower) was written and executed by the engine (8 obligations, 5 discharged), but the three
+# invariant-preservation obligations stay undecided in z3 and cvc5 within any budget that fits a check
+# (> 500 s with 5 s per query).  Membership, symmetry and monotonicity are therefore bounded only.
